@@ -20,7 +20,10 @@ import initbuild as ib
 ID = "C08"
 RULE = ("struct: class bodies = items {function, classmethod, staticmethod, property(getter/setter/deleter), "
         "cached_property, wrapped function / foreign descriptor, plain attribute, user __getattr__/__setattr__/"
-        "__attrs_init_subclass__} x member naming {public key, name-mangled private key (`__q` in class C = `_C__q`), dunder-like "
+        "__attrs_init_subclass__} x user callbacks that run DURING class construction and change the class {a field_transformer that "
+        "sets new class attributes / helpers, deletes or replaces existing ones; __init_subclass__ of a plain base, the custom "
+        "metaclass's __init__, __set_name__ of a foreign descriptor and the inherited __attrs_init_subclass__ each annotating the "
+        "class they are given} x member naming {public key, name-mangled private key (`__q` in class C = `_C__q`), dunder-like "
         "key; function __name__ = key, an alias (assignment style `total = cached_property(_impl)`), `<lambda>`, or the name of "
         "another member / field} x closure use {__class__, super(), none} x cell sharing {compiler cell shared by all "
         "methods, private cell, the old class captured under another name, empty cell, cells holding OTHER objects of many kinds: "
@@ -63,6 +66,10 @@ ASSUMPTIONS = [
     "may hit K3), for a body-level __slots__ and for body keys shadowing inherited fields; multiple inheritance is exercised in "
     "the struct and isub parts only (initbuild's chains, used by the meta part, are single-inheritance); __set_name__ of foreign "
     "descriptors being re-run for the new class is observed as a runtime fact; ABCMeta abstract-method bookkeeping is not probed",
+    "struct: the Lean `body` is the class dict as the builder copies it, i.e. after the field_transformer ran (the harness "
+    "predicts it by applying the hook's operations to a copy of the original class dict); what the hook deleted must stay "
+    "deleted, the inherited hook's mark must be on the returned class, and every callback-made attribute must be the same "
+    "object on the slotted class and on the dict build of the same class object (callbackDiff, observed)",
     "struct: member naming (mangled / dunder-like keys, function __name__ different from the key) is harness-only variation: the "
     "model is a function of the body's keys and item kinds and never sees a function's __name__",
     "struct: what an 'other' closure cell holds is harness-only variation: the model (and C08_cells_exact) says every cell not "
@@ -165,6 +172,8 @@ def gen_struct(rng):
             weak = True
         if rng.random() < 0.25:
             bs["isub"] = True
+        if rng.random() < 0.2:
+            bs["isc"] = True        # an __init_subclass__ that annotates every subclass (original and replacement)
         bases.append(bs)
     if bases and bases[0]["kind"] == "exc":        # hash caching is refused on exception classes
         hs["cache_hash"] = False
@@ -294,6 +303,20 @@ def gen_struct(rng):
         for _ in range(rng.choice([0, 1, 2, 3, 4, 6])):
             acc.append([rng.choice([0, 0, 1]), rng.choice(avail)])
     hs["accesses"] = acc
+    # a field_transformer that annotates the class it is handed: sets new class attributes / helpers, deletes or
+    # replaces existing ones (the builder copies the class dict after it ran, so this is part of the body)
+    hs["ft"] = []
+    if rng.random() < 0.25:
+        special = {"__getattr__", "__setattr__", "__attrs_init_subclass__"}
+        elig = [k for k, sp in items if sp["k"] in ("fn", "cm", "sm", "plain", "opaque") and k not in special
+                and k not in own and k not in inherited]
+        for j in range(rng.choice([1, 2, 3])):
+            r = rng.random()
+            if r < 0.55 or not elig:
+                hs["ft"].append(["set", f"ft{j}", rng.choice(["plain", "fn", "cm"])])
+            else:
+                k = elig.pop(rng.randrange(len(elig)))
+                hs["ft"].append(["del", k] if r < 0.8 else ["over", k, rng.choice(["plain", "fn"])])
     # earlier classes built from the same body objects (harness-only: the model does not see them)
     p_hist = 0.6 if cp_count else 0.3
     hs["history"] = [rng.choice(["slots", "slots", "dict"]) for _ in range(rng.choice([1, 1, 2]))] if rng.random() < p_hist else []
@@ -561,6 +584,7 @@ def dist(case, obs):
             "s.mixin": ((hs["mixin"] or {}).get("kind") or "-") + ("/first" if (hs["mixin"] or {}).get("first") else ""),
             "s.assignAgree": obs.get("assignAgree") if isinstance(obs, dict) else "?",
             "s.history": "+".join(hs.get("history", [])) or "-",
+            "s.ft": "+".join(op[0] for op in hs.get("ft") or []) or "-",
             "s.other_cells": "+".join(sorted(set((hs.get("cell_objs") or {}).values()))) or "-",
             "s.hookCalls": len(obs.get("hookCalls", [])) if isinstance(obs, dict) else "?",
             "s.n_items": len(hs["items"]), "s.n_fields": len(hs["fields"]),
@@ -621,7 +645,7 @@ def shrink(case):
             cands.append(h2)
         for key, v in (("mixin", None), ("meta", "type"), ("api", "attr.s"), ("natural", False), ("frozen", False),
                        ("hook", False), ("cache_hash", False), ("doc", False), ("qualname", None), ("accesses", []),
-                       ("weakref_slot", True), ("body_slots", None), ("history", [])):
+                       ("weakref_slot", True), ("body_slots", None), ("history", []), ("ft", [])):
             if hs.get(key) != v:
                 h2 = copy.deepcopy(hs)
                 h2[key] = v
@@ -637,6 +661,11 @@ def shrink(case):
             h2 = copy.deepcopy(hs)
             h2["cells"] = [c for c in hs["cells"] if c[0] in used_cells]
             cands.append(h2)
+        if len(hs.get("ft") or []) > 1:
+            for i in range(len(hs["ft"])):
+                h2 = copy.deepcopy(hs)
+                del h2["ft"][i]
+                cands.append(h2)
         for i, (_k, sp) in enumerate(hs["items"]):
             if sp.get("fname"):
                 h2 = copy.deepcopy(hs)
@@ -751,6 +780,8 @@ def _repair(hs):
     if hs.get("natural"):
         hs["cells"] = [[0, "old"]] if 0 in used else []
     hs["cell_objs"] = {str(c[0]): (hs.get("cell_objs") or {}).get(str(c[0]), "class") for c in hs["cells"] if c[1] == "other"}
+    keys_now = {k for k, _ in hs["items"]}
+    hs["ft"] = [op for op in (hs.get("ft") or []) if op[0] == "set" or op[1] in keys_now]
     inherited = set(cs.inherited_names(hs))
     user_getattr = any(k == "__getattr__" for k, _ in hs["items"])
     avail = {k for k, s in hs["items"] if s["k"] == "cprop" and k not in inherited and k not in own}
